@@ -47,6 +47,17 @@ static SPECS: &[PropertySpec] = &[
         assumptions: &["after RST queued data is still readable, then ConnectionReset once, then EOF (Linux semantics)", "only the first terminal event (first Err / Ok(0) / helper result) is judged for completeness; the prefix invariant and no-panic are judged on every call"],
     },
     PropertySpec {
+        id: "C03",
+        scenario: props::c03::scenario,
+        level: "exploration",
+        rule: "method x status x Content-Length field list (0..3 copies; equal/different; valid, negative, empty, non-numeric, >2^64, '+n', list-valued) x Transfer-Encoding list (absent, chunked in any case, 'identity, chunked', split over two fields) x trailing bytes x peer closes|stays silent x segmentation x bytes()/read(); expected outcome from the RFC 9112 6.3 decision table (empty without waiting / payload / must fail / not decided); distinct = (method, status, CL shape, TE, end, expectation, reader, segmentation class); non-trivial = the table decides the combination",
+        quick_runs: 8000,
+        thorough_runs: 500_000,
+        real_components: REAL,
+        stubbed_components: STUB,
+        assumptions: &["debatable spellings ('+n', 'n, n', bad Content-Length next to chunked or on a must-be-empty response) are don't-care", "the decision itself is a pure function of the head; the simulator supplies delivery schedule, the silent peer and the virtual clock"],
+    },
+    PropertySpec {
         id: "C19",
         scenario: props::c19::scenario,
         level: "exploration",
